@@ -819,10 +819,19 @@ def r3_async(ck, F, name, exp, car, A):
         if not (fo[0] == "agg" and fo[1]["agg"].get("coroutine") in {x[2] for x in polls}) and not (fo[0] == "call" and fo[2]["callee"].get("method") == "into_future"):
             problems.append("Instrument::instrument is not given the body future")
     # a bare poll is legal only where Span::is_disabled() was true
-    dis = [(bb, t) for bb, t in car.calls() if t["callee"].get("path") == "tracing::span::Span::is_disabled"]
+    # (`is_none`: no collector *and* no metadata; `is_disabled`: no collector. With the `log` feature a span nobody collects
+    # keeps its metadata to emit its `-> name` / `<- name` records from enter/exit: only `is_none` may skip Instrumented)
+    dis = [(bb, t) for bb, t in car.calls() if t["callee"].get("path") in ("tracing::span::Span::is_disabled", "tracing::span::Span::is_none")]
+    if bare and len(dis) == 1:
+        k2 = "async bodies bypass Instrumented only for a span that is nothing at all (Span::is_none)"
+        if dis[0][1]["callee"]["path"].endswith("is_disabled"):
+            ck.bad("C17.R3", k2, where(car.raw["sp"]), "the expansion polls the body bare whenever Span::is_disabled(): with the `log` feature and no collector the span exists to "
+                   "emit its lifecycle records, and an async instrumented function is then never polled inside it (no `-> name` / `<- name` records, unlike the sync expansion)", fn=car.path)
+        else:
+            ck.ok("C17.R3", k2, fn=car.path)
     if bare:
         if len(dis) != 1:
-            problems.append("bare poll of the body future without a Span::is_disabled test")
+            problems.append("bare poll of the body future without a Span::is_none / is_disabled test")
         else:
             dbb = dis[0][0]
             sw = None
